@@ -456,7 +456,7 @@ func execBig(β int, prog string) string {
 		return "?"
 	}
 	b := &bigRun{β: β}
-	res := tr.Guard(120*time.Second, func() {
+	res := tr.Guard(bigWatchdog, func() {
 		for _, m := range strings.Split(prog, ";") {
 			b.do(m)
 			if b.bad {
@@ -481,6 +481,7 @@ type big struct {
 	ms     []string
 	run    *bigRun
 	broken bool
+	hung   string // set when the steering copy ran away: the output of the line, not executed again
 	tags   map[string]bool
 }
 
@@ -490,10 +491,22 @@ func newBig(g *tr.G, β int) *big {
 
 func (b *big) add(m string) {
 	b.ms = append(b.ms, m)
-	if !b.broken && (tr.Guard(120*time.Second, func() { b.run.do(m) }) != "" || b.run.bad) {
+	if b.broken {
+		return
+	}
+	before := len(b.run.outs)
+	res := tr.Guard(bigWatchdog, func() { b.run.do(m) })
+	if res == "hang" {
+		// the run-away call keeps its goroutine; what the line had delivered before it is the output
+		b.hung = strings.Join(append(append([]string(nil), b.run.outs[:before]...), "hang"), ";")
+	}
+	if res != "" || b.run.bad {
 		b.broken = true
 	}
 }
+
+// bigWatchdog: the biggest B line takes well under a second on the real package.
+const bigWatchdog = 20 * time.Second
 
 func (b *big) New() int      { b.add("N"); return len(b.run.trees) - 1 }
 func (b *big) Bulk(k ks) int { b.add("K:" + k.String()); return len(b.run.trees) - 1 }
@@ -525,7 +538,12 @@ func (b *big) emit(tags ...string) {
 	tags = append(tags, fmt.Sprintf("big-beta=%d", b.β))
 	b.g.W.Count("big-height-lowered-by-insertion", b.run.lowered)
 	sort.Strings(tags)
-	b.g.Emit("B "+strconv.Itoa(b.β)+" "+strings.Join(b.ms, ";"), true, tags...)
+	in := "B " + strconv.Itoa(b.β) + " " + strings.Join(b.ms, ";")
+	if b.hung != "" {
+		b.g.W.Case(in, b.hung, true, tags...)
+	} else {
+		b.g.Emit(in, true, tags...)
+	}
 }
 
 func probeSeq(r *tr.Rand, lo, step, n, m int) ks {
